@@ -4,20 +4,20 @@
    re-established by every Ok.  Nothing is claimed after the first exchange that fails - that is the known
    finding, and [session_boundary] shows it is exactly there that duplicates / stale responses appear. *)
 From Coq Require Import ZArith List Bool Lia.
-From NV Require Import Base.Result Base.Bytes Model.IsoDep Proofs.IsoDep Proofs.IsoDepSync Proofs.IsoDepLegacy.
+From NV Require Import Base.Result Base.Bytes Model.IsoDep Proofs.IsoDep Proofs.IsoDepSync Proofs.IsoDepBudget Proofs.IsoDepLegacy.
 Import ListNotations.
 Open Scope Z_scope.
 
 Definition plan_t := list (list Z).
 
 (* one exchange consumes one script entry per block it sends *)
-Fixpoint session1 (app : Z -> bytes -> bytes) (fuel : nat) (k : cfg) (kc : ccfg) (pn : Z) (c : picc)
+Fixpoint session1 (app : Z -> bytes -> bytes) (fuel : nat) (k : cfg) (mx : option Z) (kc : ccfg) (pn : Z) (c : picc)
                   (cmds : list (bytes * plan_t)) (sc : list (fate * fate)) : list outcome :=
   match cmds with
   | [] => []
   | (cmd, pl) :: t =>
-      let o := exchange app fuel k kc cmd pn (set_plan c pl) sc in
-      o :: session1 app fuel k kc (o_pni o) (o_card o) t (skipn (length (o_blocks o)) sc)
+      let o := fst (exchangex app fuel k mx kc cmd pn (set_plan c pl) sc) in      (* n_extra starts at 0 in every exchange *)
+      o :: session1 app fuel k mx kc (o_pni o) (o_card o) t (skipn (length (o_blocks o)) sc)
   end.
 
 (* what a session must look like, given the card's log [e] before it *)
@@ -40,18 +40,18 @@ Fixpoint sess_spec (app : Z -> bytes -> bytes) (e : list bytes) (cmds : list (by
 Lemma in_step_set_plan pn c pl : in_step pn c -> in_step pn (set_plan c pl).
 Proof. intros (H1 & H2 & H3 & H4 & H5). repeat split; assumption. Qed.
 
-Theorem session_sound app k kc : repaired k -> params_ok k kc ->
+Theorem session_sound app k mx kc : repaired k -> params_ok k kc ->
   forall cmds fuel sc pn c, in_step pn c -> Forall (fun x => 0 < len (fst x)) cmds ->
-  sess_spec app (execs c) cmds (session1 app fuel k kc pn c cmds sc).
+  sess_spec app (execs c) cmds (session1 app fuel k mx kc pn c cmds sc).
 Proof.
   intros Hrep Hpar. induction cmds as [|[cmd pl] t IH]; intros fuel sc pn c Hstep Hall; [exact I|].
   cbn [session1 sess_spec]. inversion Hall as [|x l Hc Ht]; subst. cbn [fst] in Hc.
   pose proof (in_step_set_plan pn c pl Hstep) as Hstep'.
-  pose proof (exchange_result_sound app k kc cmd pn (set_plan c pl) Hrep Hpar Hstep' Hc fuel sc) as Hs.
-  pose proof (exchange_at_most_once app k kc cmd pn (set_plan c pl) Hrep Hpar Hstep' Hc fuel sc) as Ha.
+  pose proof (exchangex_result_sound app k kc cmd pn (set_plan c pl) Hrep Hpar Hstep' Hc mx fuel sc) as Hs.
+  pose proof (exchangex_at_most_once app k kc cmd pn (set_plan c pl) Hrep Hpar Hstep' Hc mx fuel sc) as Ha.
   cbv zeta in Hs, Ha. change (execs (set_plan c pl)) with (execs c) in *.
   unfold response in Hs. change (execs (set_plan c pl)) with (execs c) in Hs.
-  destruct (o_res (exchange app fuel k kc cmd pn (set_plan c pl) sc)) as [r | e | x |] eqn:Er.
+  destruct (o_res (fst (exchangex app fuel k mx kc cmd pn (set_plan c pl) sc))) as [r | e | x |] eqn:Er.
   - destruct Hs as (Hr & Hex & Hin). split; [exact Hr|]. split; [exact Hex|]. split; [exact Hin|].
     rewrite <- Hex. apply IH; assumption.
   - destruct e; try contradiction. exact Ha.
@@ -81,14 +81,14 @@ Qed.
 
 (* every exchange returned a value: the log is exactly the commands, once each, in order,
    and every value is the response to its own command *)
-Theorem session_all_ok app k kc : repaired k -> params_ok k kc ->
+Theorem session_all_ok app k mx kc : repaired k -> params_ok k kc ->
   forall cmds fuel sc pn c, in_step pn c -> Forall (fun x => 0 < len (fst x)) cmds ->
-  let outs := session1 app fuel k kc pn c cmds sc in
+  let outs := session1 app fuel k mx kc pn c cmds sc in
   Forall (fun o => is_ok (o_res o) = true) outs ->
   map o_res outs = expected app (execs c) cmds /\ final_log (execs c) outs = execs c ++ map fst cmds.
 Proof.
   intros Hrep Hpar cmds fuel sc pn c Hstep Hall. cbv zeta. intro Hok.
-  apply (sess_spec_all_ok app cmds (execs c) _ (session_sound app k kc Hrep Hpar cmds fuel sc pn c Hstep Hall) Hok).
+  apply (sess_spec_all_ok app cmds (execs c) _ (session_sound app k mx kc Hrep Hpar cmds fuel sc pn c Hstep Hall) Hok).
 Qed.
 
 (* the boundary: budget 1; the first exchange fails (response and the answer to R(NAK) lost); the session theorem
@@ -96,7 +96,7 @@ Qed.
 Definition boundary_cmds : list (bytes * plan_t) := [([255; 1; 0; 5], []); ([255; 2; 0; 5], [])].
 Definition boundary_script : list (fate * fate) := [(FD, FL); (FD, FL); (FD, FL)].
 Definition boundary_session : list outcome :=
-  session1 demo_app 50 k_repaired kc16 0 (picc_init []) boundary_cmds boundary_script.
+  session1 demo_app 50 k_repaired (Some MAX_EXTRA_BLOCKS) kc16 0 (picc_init []) boundary_cmds boundary_script.
 Lemma session_boundary :
   sess_spec demo_app [] boundary_cmds boundary_session /\
   map o_res boundary_session = [Err (TagCommandError E_TIMEOUT); Ok (demo_app 2 [255; 2; 0; 5])] /\
@@ -107,7 +107,7 @@ Proof.
     assert (H2 : params_ok k_repaired kc16) by (unfold params_ok; cbn; lia).
     assert (H3 : in_step 0 (picc_init [])) by (unfold in_step, bit; cbn; repeat split; auto).
     assert (H4 : Forall (fun x : bytes * plan_t => 0 < len (fst x)) boundary_cmds) by (repeat constructor).
-    exact (session_sound demo_app k_repaired kc16 H1 H2 boundary_cmds 50%nat boundary_script 0 (picc_init []) H3 H4).
+    exact (session_sound demo_app k_repaired (Some MAX_EXTRA_BLOCKS) kc16 H1 H2 boundary_cmds 50%nat boundary_script 0 (picc_init []) H3 H4).
   - vm_compute. split; reflexivity.
 Qed.
 
@@ -116,9 +116,20 @@ Qed.
 Definition nvs_cmds : list (bytes * plan_t) :=
   [(nv_cmd, []); ([255; 9; 0; 3], []); ([255; 3; 0; 30], [[]; [5]])].
 Definition nvs_script : list (fate * fate) := [(FD, FD); (FL, FD)].
-Definition nvs_session : list outcome := session1 demo_app 900 k_nv kc16 0 (picc_init []) nvs_cmds nvs_script.
+Definition nvs_session : list outcome := session1 demo_app 900 k_nv (Some MAX_EXTRA_BLOCKS) kc16 0 (picc_init []) nvs_cmds nvs_script.
 Lemma nvs_run :
   map o_res nvs_session = [Ok (demo_app 0 nv_cmd); Ok (demo_app 1 [255; 9; 0; 3]); Ok (demo_app 2 [255; 3; 0; 30])] /\
   final_log [] nvs_session = [nv_cmd; [255; 9; 0; 3]; [255; 3; 0; 30]] /\
   map (fun o => length (o_blocks o)) nvs_session = [5%nat; 1%nat; 4%nat].
+Proof. vm_compute. repeat split. Qed.
+
+(* non-vacuity of the per-exchange theorems at HEAD: the exchange of [nv_run] under the budget 65538, what it needs
+   of the budget (2 S(WTX) + 1 chained response block, 4 faulty rounds in the script), and the same exchange
+   under a budget of 2: the documented error, the APDU still executed once *)
+Lemma nvx_run :
+  need_extra demo_app kc16 nv_cmd nv_card = 3 /\ faults nv_script = 4 /\
+  (let o := exchangex demo_app 900 k_nv (Some MAX_EXTRA_BLOCKS) kc16 nv_cmd 0 nv_card nv_script in
+   o_res (fst o) = Ok (demo_app 0 nv_cmd) /\ execs (o_card (fst o)) = [nv_cmd] /\ snd o = 3) /\
+  (let o := exchangex demo_app 900 k_nv (Some 2) kc16 nv_cmd 0 nv_card nv_script in
+   o_res (fst o) = Err (TagCommandError E_PROTOCOL) /\ execs (o_card (fst o)) = [nv_cmd]).
 Proof. vm_compute. repeat split. Qed.
